@@ -41,13 +41,13 @@ const (
 // Visit is one node of a backward slice.
 type Visit struct {
 	Kind  VisitKind
-	V     ssa.Value       // the value / FieldAddr / load
-	Field *types.Var      // VFieldRead
-	Owner types.Type      // VFieldRead: struct type owning the field
-	Base  ssa.Value       // VMemRead: the slice value
-	Index ssa.Value       // VMemRead: the subscript
-	Path  []int           // residual path at this node
-	Fn    *ssa.Function   // function the node belongs to
+	V     ssa.Value     // the value / FieldAddr / load
+	Field *types.Var    // VFieldRead
+	Owner types.Type    // VFieldRead: struct type owning the field
+	Base  ssa.Value     // VMemRead: the slice value
+	Index ssa.Value     // VMemRead: the subscript
+	Path  []int         // residual path at this node
+	Fn    *ssa.Function // function the node belongs to
 	Ctx   *Ctx
 	At    ssa.Instruction // VZero: the alloc
 }
